@@ -48,6 +48,9 @@ def status_histogram(recs_list):
 
 
 def replay_text(t, ops, upto):
+    if ops and ops[0].startswith("foreign"):
+        return ("document (percent-encoded): %s\nreplay: printf 'foreign\\t%s\\n' | harness/target/debug/xmlrs-driver\n"
+                % (lib.enc(t), lib.enc(t).replace("%", "%%")))
     return ("document (percent-encoded): %s\noperations: %s\nreplay: printf 'dom\\t%s\\t\\t%s\\n' | harness/target/debug/xmlrs-driver\n"
             % (lib.enc(t), " ".join(ops[:upto]), lib.enc(t).replace("%", "%%"),
                "\\t".join(lib.enc(o).replace("%", "%%") for o in ops[:upto])))
@@ -191,6 +194,36 @@ def run_c13(chk):
                 mfail.append((t, ops, i, "the call %s: effect or exception differs from DOM Level 1 (model)" % ops[i - 1],
                               "implementation: %s {%s}\nmodel:          %s {%s}" % (st, x["dump"][:500], m[i]["status"], m[i]["dump"][:500])))
                 break
+    # ---- nodes of ANOTHER document (the same text read twice: equal ids in both): a new child / attribute of the other document
+    # is WRONG_DOCUMENT_ERR, a reference, an old child or an old attribute of the other document is NOT_FOUND_ERR (it is not a
+    # child of the receiver), and neither document changes
+    FOREIGN = {"append(new2)": "wrongdoc", "insert(new2,-)": "wrongdoc", "doc.append(new2)": "wrongdoc", "insert(new2,own)": "wrongdoc",
+               "replace(new2,own)": "wrongdoc", "insert(own,ref2)": "notfound", "replace(own,old2)": "notfound", "remove(old2)": "notfound",
+               "doc.remove(root2)": "notfound", "remove(made2)": "notfound", "setAttributeNode(a2)": "wrongdoc",
+               "setNamedItem(a2)": "wrongdoc", "removeAttributeNode(attr2)": "notfound", "attr.remove(item2)": "notfound",
+               "attr.append(item2)": "wrongdoc"}
+    fdocs = ["<r a='1' b='x&amp;y'><k>t</k>u<!--c--></r>", "<r><k/></r>", "<!DOCTYPE r><r id='v'>text</r><!--e-->", "<r/>"]
+    fdocs += [t for t, _ in cases[:40]]
+    fout = lib.run_lines(lib.build_harness(), [lib.req("foreign", t) for t in fdocs], timeout=300, per_line_resume=True)
+    ncalls = 0
+    for t, o in zip(fdocs, fout):
+        if " | " not in o:
+            mfail.append((t, ["foreign"], 1, "calls with nodes of another document: %s" % o[:100], o[:300]))
+            continue
+        calls, tail = o.rsplit(" | ", 1)
+        for c in calls.split(";"):
+            if "=" not in c:
+                continue
+            name, got = c.rsplit("=", 1)
+            ncalls += 1
+            chk.count(["foreign", t, name], nontrivial=True)
+            if got != "err:" + FOREIGN.get(name, "?"):
+                mfail.append((t, ["foreign:" + name], 1, "%s with a node of another document answers %s, DOM Level 1 specifies %s"
+                              % (name, got, FOREIGN.get(name, "?").upper()), o[:600]))
+                break
+        if tail != "same":
+            mfail.append((t, ["foreign"], 1, "a refused call with a node of another document changed a document", tail[:600]))
+    chk.cov["foreign_document_calls"] = ncalls
     chk.cov["result_classes"] = dict(sorted(classes.items()))
     chk.cov["rule"] = ("%d histories of up to %d mutator calls with receivers/arguments of every kind and position and name/value strings "
                        "over an alphabet with the markup-significant characters; per call: no panic/abort, a failing call leaves the "
